@@ -745,7 +745,9 @@ func TestC08StateMachine(t *testing.T) {
 			f := f
 			actions[name] = func(t *rapid.T) {
 				if w.dead {
-					t.Skip("model stopped")
+					// the model has stopped (mixed state after a partial completion): the remaining steps are no-ops. They do not
+					// Skip: rapid gives up a run after 100 skipped draws in a row, which long thorough runs did reach
+					return
 				}
 				f(t)
 			}
